@@ -25,8 +25,8 @@ fn settings(g: &mut Sm, focus: &str) -> String {
     };
     let (steps, inner) = *g.pick(grid);
     let kt_start = match focus {
-        "C05" => 0.,
-        "C18" => *g.pick(&[0.1, 0.5, 1e-3, 0.05, 2.0, 0.]),
+        "C05" => *g.pick(&[0., 0., 0., 0., -0.0]),
+        "C18" => *g.pick(&[0.1, 0.5, 1e-3, 0.05, 2.0, 0., 0.1, 0.5, 1e-3, 0.05, 2.0, 0., -0.0]),
         // C07/C08: an undefined score is never accepted, whatever the temperature - also infinite, NaN, negative
         "C07" | "C08" => *g.pick(&[0.1, 0.5, 1e-3, 0.05, 2.0, 0., f64::INFINITY, f64::NAN, -0.1, 1e300]),
         _ => *g.pick(&[0., 0.1, 0.5, 1e-3, 0.]),
@@ -36,7 +36,10 @@ fn settings(g: &mut Sm, focus: &str) -> String {
         _ => Some(*g.pick(&[0., 1e-3, 0.1, 0.01, 1e-5])),
     };
     let kt_ratio: Option<f64> = match (g.below(3), focus) {
-        (0, "C05") | (1, "C05") => Some(*g.pick(&[0., 0.1, 0.5, 1., 0.9, 0.01, 1.5, 2., -1., -0.5, -3., 1.0000001])),
+        (0, "C05") | (1, "C05") => Some(*g.pick(&[0., 0.1, 0.5, 1., 0.9, 0.01, 1.5, 2., -1., -0.5, -3., 1.0000001,
+                                                   f64::NEG_INFINITY, f64::INFINITY, f64::NAN, -1e308, -1.7e308])),
+        (0, "C18") => Some(*g.pick(&[0., 0.1, 0.5, 1., 0.9, 0.01, 0., 0.1, 0.5, 1., 0.9, 0.01, 1.5, -1.,
+                                      f64::NEG_INFINITY, f64::INFINITY, f64::NAN, -1.7e308])),
         (0, _) => Some(*g.pick(&[0., 0.1, 0.5, 1., 0.9, 0.01])),
         _ => None,
     };
